@@ -15,7 +15,9 @@ RULE = ("cases = (family, hyper-parameters, stream, history of fit/partial_fit c
         "size 1); checked after every call; non-trivial when >= 2 categories exist at the end; distinct by hash of "
         "(family spec, stream, history); plus histories whose caller-supplied match_reset_func re-enters the estimator "
         "being trained with partial_fit (rehearsal of earlier rows), non-trivial when an inner call happened and >= 2 "
-        "categories exist")
+        "categories exist; plus FusionART hosts built around channel modules that carry state from outside the host "
+        "(trained standalone beforehand or taken over from an older FusionART), non-trivial when a pre-owned module held "
+        "categories when the host was built and the host ends with >= 2 categories")
 
 FAMS = families.ELEM + ["FusionART", "DualVigilanceART", "TopoART", "CVIART", "iCVIFuzzyART", "SimpleARTMAP", "ARTMAP"]
 
@@ -163,6 +165,7 @@ def run(ctx):
     checkpoint_then_refit(ctx)
     reentrant_reset(ctx)
     fit_gif_histories(ctx)
+    preowned_channel_modules(ctx)
     e2e.base_histories(ctx, "C05", ctx.scale(150, 3000), ctx.scale(20, 80), fields=("labels", "cnt"))
 
 
@@ -486,3 +489,110 @@ def fit_gif_histories(ctx):
             cov.case(("fit-gif", fam.spec, desc["rows"], before), True)
     finally:
         shutil.rmtree(tmp, ignore_errors=True)
+
+
+def preowned_channel_modules(ctx):
+    """channel modules that carry state from OUTSIDE their host: a FusionART is a list of module objects the caller
+    builds, and nothing says they are new — a module may have been trained on its own channel beforehand (a first look
+    at that channel: it has W, weight_sample_counter_, sample_counter_, labels_) or be taken over from an older
+    FusionART (which was fitted, so the module holds that host's categories and counters).  Any subset of the channels
+    is pre-owned, very often NOT channel 0.  The new host's training history starts with its first `fit` / `fit_predict`
+    (which starts a new model) or its first `partial_fit`; where the library accepts that call, the property reads as
+    for every FusionART: one label per sample presented to the host since its last fit, labels index the host's
+    categories, none empty, n_clusters = stored categories for the host and for every channel module, every module's
+    per-category counters equal the label histogram and sum to the samples presented; fit_predict returns labels_.
+    A call the library rejects (e.g. a first partial_fit on a host whose channel 0 is trained but which has no labels_
+    yet) is recorded as such and ends the history."""
+    from ..impl import make
+    import artlib
+    cov = ctx.cov
+    for i in range(ctx.scale(90, 1500)):
+        r = gen.rng_for(ctx.seed, "C05-preowned", i)
+        for _ in range(8):
+            fam, rows = families.build(r, "FusionART", r.randint(3, 14), floats=r.random() < 0.25)
+            if len(fam.groups) >= 2:
+                break
+        else:
+            continue
+        n = len(rows)
+        X = rows.arrs["X"]
+        nch = len(fam.groups)
+        dims = list(fam.spec["channel_dims"])
+        bounds = np.concatenate([[0], np.cumsum(dims)]).tolist()
+        # who is pre-owned and how: mostly channel 0 new and a later channel pre-owned
+        origins = ["new"] * nch
+        if r.random() < 0.7:
+            ks = r.sample(range(1, nch), r.randint(1, nch - 1))
+        else:
+            ks = r.sample(range(nch), r.randint(1, nch))
+        for k in ks:
+            origins[k] = r.choice(["standalone-fit", "standalone-partial_fit", "older-fusion"])
+        pre_rows = fam.fresh(r, r.randint(1, 12)) if fam.fresh is not None and r.random() < 0.6 else rows
+        Xp = pre_rows.arrs["X"]
+        first = r.choice(["fit", "fit", "fit_predict", "pfit", "pfit"])
+        calls, j = [], 0
+        for q, p in enumerate(gen.compositions(r, n)):
+            op = first if q == 0 else ("fit" if r.random() < 0.2 else "pfit")
+            calls.append((op, j, j + p))
+            j += p
+        desc = dict(fam.describe(), rows=rows.tolist(), channel_origins=origins, rows_seen_by_preowned_modules=pre_rows.tolist(),
+                    calls=calls)
+        key = ("preowned", fam.spec, desc["rows"], origins, desc["rows_seen_by_preowned_modules"], calls)
+        scen = "[pre-owned-channel-module]"
+        try:
+            modules = [make(sp) for sp in fam.spec["modules"]]
+            held = []
+            with families.quiet():
+                older = [k for k in range(nch) if origins[k] == "older-fusion"]
+                if older:
+                    # the older host: the modules taken over at their channel positions, modules of its own elsewhere
+                    old_mods = [modules[k] if k in older else make(fam.spec["modules"][k]) for k in range(nch)]
+                    old = artlib.FusionART(old_mods, gamma_values=list(fam.spec["gamma_values"])[::-1], channel_dims=dims)
+                    old.fit(Xp, **fam.kw())
+                for k in range(nch):
+                    if origins[k] == "standalone-fit":
+                        modules[k].fit(Xp[:, bounds[k]:bounds[k + 1]], **fam.kw())
+                    elif origins[k] == "standalone-partial_fit":
+                        m = len(Xp) // 2
+                        modules[k].partial_fit(Xp[:m + 1, bounds[k]:bounds[k + 1]], **fam.kw())
+                        if m + 1 < len(Xp):
+                            modules[k].partial_fit(Xp[m + 1:, bounds[k]:bounds[k + 1]], **fam.kw())
+                for k in range(nch):
+                    if origins[k] != "new":
+                        held.append(len(modules[k].W))
+                est = artlib.FusionART(modules, gamma_values=list(fam.spec["gamma_values"]), channel_dims=dims)
+        except Exception as e:
+            cov.hit(f"preowned:setup-raised:{exc_enum(e)}")
+            cov.case(key, False)
+            continue
+        desc["categories_held_by_preowned_modules"] = held
+        since = 0
+        done = True
+        for q, (op, a, b) in enumerate(calls):
+            try:
+                with families.quiet():
+                    if op == "fit":
+                        est.fit(X[a:b], **fam.kw())
+                        since = b - a
+                    elif op == "fit_predict":
+                        out = est.fit_predict(X[a:b], **fam.kw())
+                        since = b - a
+                        if not np.array_equal(np.asarray(out), np.asarray(est.labels_)):
+                            ctx.issue("violation", f"FusionART{scen}:fit_predict!=labels_", f"fit_predict returned {np.asarray(out).tolist()}, "
+                                      f"labels_ = {np.asarray(est.labels_).tolist()}", dict(desc, where=f"call {q}"))
+                    else:
+                        est.partial_fit(X[a:b], **fam.kw())
+                        since += b - a
+            except Exception as e:
+                cov.hit(f"preowned:{'first' if q == 0 else 'later'}-{op}-raised:ch0={origins[0]}:{exc_enum(e)}")
+                done = False
+                break
+            check_state(ctx, fam, est, since, desc, f"after call {q} ({op} rows {a}:{b}) of a FusionART host whose channel modules "
+                        f"were {origins} when it was built (pre-owned ones held {held} categories)", scenario=scen)
+            if q == 0:
+                cov.hit(f"preowned:first-call={op}:ch0={'new' if origins[0] == 'new' else 'pre-owned'}")
+                for o_ in set(origins) - {"new"}:
+                    cov.hit(f"preowned:origin={o_}")
+        if done and len(calls) > 1:
+            cov.hit("preowned:history-continued")
+        cov.case(key, done and any(h > 0 for h in held) and len(est.W) >= 2)
